@@ -22,7 +22,7 @@ rows=[r for r in rows if re.search(opre,r[2]) and re.search(filere,r[1])]
 random.Random(int(seed)).shuffle(rows)
 for r in rows[:int(count)]: print(r[0])
 P
-SUITE="./openflow13/... ./protocol/... ./common/... ./util/..."
+SUITE="./openflow13/... ./protocol/... ./common/... ./util/... ./ofbase/..."
 for i in $(cat /tmp/mm-$$.pick); do
   (cd "$W" && git checkout -q -- .)
   info=$(/tmp/mm-$$.bin -repo "$W" -apply $i)
@@ -36,6 +36,7 @@ for i in $(cat /tmp/mm-$$.pick); do
       util)     ids="C19 C01 C05 C07 C11 C10 C14";;
       protocol) ids="C09 C06 C04 C05 C12 C13 C03 C08 C14";;
       common)   ids="C01 C02 C03 C05 C06 C04 C12 C13 C19 C07 C10 C14";;
+      ofbase)   ids="C19 C01 C05 C07";;
       *)        ids="C01 C02 C03 C05 C06 C04 C12 C13 C15 C16 C17 C18 C07 C14";;
     esac
     for id in $ids; do
